@@ -27,9 +27,20 @@ func (UInner) ValM() string   { return "valm" }
 func (*UInner) PtrM() string  { return "ptrm" }
 func (i UInner) Echo(s string) string { return i.Name + ":" + s }
 
+type UL4 struct{ Deepest, Deepest2 string }
+type UL3 struct {
+	ID, Title, Owner string
+	UL4
+}
+type UL2 struct {
+	Mid string
+	UL3
+}
 type UEmbV struct {
 	Promoted string
 	Shadow   string
+	UL2
+	embHidden string
 }
 type UEmbP struct{ PProm string }
 
@@ -66,7 +77,7 @@ type UEarly struct {
 func newUOuter(withEmbP bool) *UOuter {
 	in := &UInner{Name: "pin", N: 2}
 	o := &UOuter{
-		UEmbV: UEmbV{Promoted: "prom", Shadow: "emb-shadow"}, Shadow: "outer-shadow",
+		UEmbV: UEmbV{Promoted: "prom", Shadow: "emb-shadow", embHidden: "eh", UL2: UL2{Mid: "mid", UL3: UL3{ID: "id-1", Title: "the-title", Owner: "the-owner", UL4: UL4{"deepest", "deepest2"}}}}, Shadow: "outer-shadow",
 		In: UInner{Name: "in", N: 1}, PIn: in, PP: &in,
 		M: map[string]int{"k": 7, "Name": 9}, MI: map[int]string{7: "seven"},
 		MA: map[string]interface{}{"nilval": nil, "v": "mv", "in": UInner{Name: "ma-in"}},
@@ -90,7 +101,7 @@ type c06Step struct {
 	arg  string
 }
 
-var c06Fields = []string{"Promoted", "PProm", "Shadow", "In", "PIn", "NilIn", "PP", "M", "MI", "MA", "MS", "NilM", "S", "SI", "NilS", "A", "Str", "I", "NilI", "U8", "secret", "Nope", "Name", "N", "hidden", "k", "absent", "nilval", "v", "in", "e", "UEmbV"}
+var c06Fields = []string{"Promoted", "PProm", "Shadow", "In", "PIn", "NilIn", "PP", "M", "MI", "MA", "MS", "NilM", "S", "SI", "NilS", "A", "Str", "I", "NilI", "U8", "secret", "Nope", "Name", "N", "hidden", "k", "absent", "nilval", "v", "in", "e", "UEmbV", "ID", "Title", "Owner", "Mid", "Deepest", "Deepest2", "UL2", "UL3", "embHidden"}
 
 func c06Steps() []c06Step {
 	var st []c06Step
@@ -503,7 +514,7 @@ func C17(r *core.Run) map[string]interface{} {
 	if r.Thorough() {
 		maxLen = 3
 	}
-	r.Rule = "isset(p) for every access path of <= N steps of the C06 universe that is an identifier/field/index chain; isset(p, q) for every pair of paths of <= 1 step (thorough: one side <= 2 steps); p | isset for every p whose evaluation is defined; v, ok := m[k] and v, ok = m[k] for every map of the universe x 8 keys; oracle: never fails, true iff every argument resolves to a non-nil value; distinct = distinct (form, verdict) per path class"
+	r.Rule = "isset(p) for every access path of <= N steps of the C06 universe that is an identifier/field/index chain; isset(p, q) for every pair of paths of <= 1 step (thorough: one side <= 2 steps); p | isset, p | isset(_) and p | isset(x, _) for every p whose evaluation is defined; v, ok := m[k] and v, ok = m[k] for every map of the universe x 8 keys; oracle: never fails, true iff every argument resolves to a non-nil value; distinct = distinct (form, verdict) per path class"
 	total := c06Count(len(steps), maxLen)
 	chain := func(p c06Path) bool {
 		for _, k := range p.steps {
@@ -543,6 +554,10 @@ func C17(r *core.Run) map[string]interface{} {
 		if want.st == rj.MOk {
 			roots2, _ := c06Roots1(p)
 			run("piped", "[{{ "+src+" | isset }}]", roots2, fmt.Sprintf("[%v]", c06NotNil(want)), false, "")
+			roots3, _ := c06Roots1(p)
+			run("piped-slot", "[{{ "+src+" | isset(_) }}]", roots3, fmt.Sprintf("[%v]", c06NotNil(want)), false, "")
+			roots4, _ := c06Roots1(p)
+			run("piped-slot2", "[{{ "+src+" | isset(kName, _) }}]", roots4, fmt.Sprintf("[%v]", c06NotNil(want)), false, "")
 		}
 		if i%4099 == 0 {
 			r.Sample(map[string]string{"source": "{{ isset(" + src + ") }}", "want": fmt.Sprint(c06NotNil(want))})
